@@ -55,6 +55,13 @@ CHECKS = {
             'All 16-bit keys are tried on the field table and on the trait set of a live instance of every message, header, trailer and nested group of both schemas; names and near misses '
             'on the message/reverse tables; thousands of random op histories on both presorted_set templates.',
             'Independent schema model; ASan for the memmove/memcpy paths.', '3 C12'),
+    'C13': ('f8c_pipeline', 'exploration', 'runtime oracle over a generated program family: random schemas -> f8c (ASan/UBSan build) -> g++ -> metadata read back by reflection and compared with an independent parse of the same XML -> round trips through the generated codec',
+            'A dozen schemas per quick run (hundreds in thorough), each with 22 field types, enumerations, components, nested and reused groups, custom field numbers; every field, enumerated value, message, section, member order, type, mandatory and '
+            'group flag is compared, then 150+ generated messages per schema are encoded, parsed independently, decoded and re-encoded.',
+            'TZ time types are not generated; count fields may carry the base int type in the traits; fields used by no message are not emitted by f8c (by design).', '3 C13'),
+    'C14': ('f8c_pipeline', 'exploration', 'as C13, on schemas that use one count field with two different definitions: random differences and definitions constructed to collide under the compiler\'s structural hash (hash re-implemented and self-checked)',
+            'Both messages carrying the variant group are built with their own members and round-tripped; the compiled members of both group definitions are read back.',
+            'The collision construction relies on rothash being XOR-linear; if the compiler\'s hash changes the evidence says so (hash_selfcheck_ok) and no alarm is raised.', '3 C14'),
     'C15': ('reader_frame', 'exploration', 'runtime monitor: the strings the real FIXReader hands to an overridden Session::process vs the generated stream, over real loopback TCP with seeded chunkings; ASan/UBSan (thorough adds TSan)',
             'Hundreds of streams per run (0..40 valid messages, body sizes across the 1/2/3/4-digit BodyLength edges up to the maximum) in 6 chunkings incl. byte-by-byte and splits inside the preamble, in pm_thread and pm_pipeline, '
             'optionally followed by one of 11 preamble corruptions; valid streams must be handed on exactly, after a corruption nothing corrupt may be handed on and the reader must stop.',
@@ -167,6 +174,7 @@ def main():
             {'name': 'sched_mon', 'path': 'harness/sched_mon.cpp', 'serves_properties': ['C24'], 'kind_free_text': 'Schedule::test on a virtual clock vs window membership; decode_dow vs reference decoder'},
             {'name': 'reader_frame', 'path': 'harness/reader_frame.cpp', 'serves_properties': ['C15'], 'kind_free_text': 'real connection reader vs generated streams and chunkings'},
             {'name': 'conc_send', 'path': 'harness/conc_send.cpp', 'serves_properties': ['C25'], 'kind_free_text': 'concurrent senders, wire reader, store read-back; tsan and asan flavours'},
+            {'name': 'f8c_pipeline', 'path': 'checks/f8c.py', 'serves_properties': ['C13', 'C14'], 'kind_free_text': 'pylib/schemagen.py + tools/build.py build_gen + harness/meta_dump.cpp + codec_exec compiled against the generated schema'},
             {'name': 'persist_model', 'path': 'harness/persist_model.cpp', 'serves_properties': ['C26'], 'kind_free_text': 'random API histories vs map model'},
             {'name': 'persist_crash', 'path': 'harness/persist_crash.cpp', 'serves_properties': ['C27'], 'kind_free_text': 'fork + write/lseek countdown crash injection, reopen oracle'},
             {'name': 'logger_stress', 'path': 'harness/logger_stress.cpp', 'serves_properties': ['C28'], 'kind_free_text': 'producer threads + offline exactly-once/order checker'},
